@@ -12,7 +12,7 @@ from . import c04
 LEVEL = 'fault_enumeration'
 TECHNIQUE = 'runtime monitoring with fault enumeration: one injected fault per recorded socket operation / byte offset, plus real loopback RST/FIN'
 BUDGET_S = {'quick': 35, 'thorough': 240}
-REQUIRED = {'all': ['oracle.fault_runs_judged', 'faults.hit', 'oracle.offset_runs_judged', 'oracle.multi_address_runs',
+REQUIRED = {'all': ['oracle.two_connection_runs', 'oracle.fault_runs_judged', 'faults.hit', 'oracle.offset_runs_judged', 'oracle.multi_address_runs',
                     'oracle.socket_close_checked']}
 RULE = ('fault enumeration from a recorded fault-free run: for each base scenario (handshake only, fragmented '
         'text exchange, ping/auto-pong, auto-ping on the virtual clock, client close, server close + echo, '
@@ -129,6 +129,7 @@ def cases(tier, seed, i, n):
             for off in range(0, b['slen'] + 1, step):
                 for kind in ('eof', 'reset', 'runtime'):
                     yield dict(kind='offset', sc=name, off=off, fault=kind)
+        yield gen.mark('one fault at every recorded socket operation x every fault kind, and at every byte offset of the server stream, for 8 base scenarios')
         for naddr in (1, 2, 3, 4):
             for j in range(0, naddr + 1):
                 for how in ('refused', 'timeout', 'sockfail'):
@@ -136,7 +137,7 @@ def cases(tier, seed, i, n):
                         yield dict(kind='addr', sc=name, naddr=naddr, j=j, how=how)
         rnd = random.Random(seed * 3571 + 9)
         names = sorted(SC)
-        for _ in range(400 if tier == 'quick' else 20000):
+        for _ in range(2000 if tier == 'quick' else 1500000):
             # two faults in one run (secondary exploration beyond single-fault enumeration)
             name = rnd.choice(names)
             b = baseline(name)
@@ -146,6 +147,9 @@ def cases(tier, seed, i, n):
             a, c = rnd.sample(pts, 2)
             yield dict(kind='double', sc=name, f1=[a[0], a[1], rnd.choice(KINDS)], f2=[c[0], c[1], rnd.choice(KINDS)],
                        cuts=rnd.choice((None, 'all')))
+        for bfault in ('eof', 'reset', 'protocol-error', 'server-close'):
+            for astuck in ('app-send', 'app-ping', 'app-close'):
+                yield dict(kind='twoconn', bfault=bfault, astuck=astuck)
         if tier == 'thorough':
             for r in range(40):
                 yield dict(kind='real', mode=('rst', 'fin')[r % 2], off=r * 7 % 150, r=r)
@@ -162,6 +166,8 @@ def run_case(case, acc):
         return
     if k == 'real':
         return run_real(case, acc)
+    if k == 'twoconn':
+        return run_twoconn(case, acc)
     sc = SC[case['sc']]
     b = baseline(case['sc'])
     if k == 'point':
@@ -337,3 +343,87 @@ def run_real(case, acc):
         acc.violation(key, 'C09 real loopback %s at offset %d: %s' % (case['mode'], case['off'], key), case, res)
     else:
         acc.cls('real/%s/%d' % (case['mode'], case['off']))
+
+
+# ------------------------------------------------------------------ a stalled send on ANOTHER connection
+def run_twoconn(case, acc):
+    """Two connections in one process.  A thread is stuck for ever in the middle of a socket write on connection A
+    (its peer stopped reading).  A transport failure on connection B must still become an event and close B's
+    socket - nothing B needs may be held by A.  Runs under the controlled scheduler so that "stuck" is a logical
+    state, not a sleep."""
+    from .. import sched, simnet, schedlock
+    from .. import env as _env
+    bfault, astuck = case['bfault'], case['astuck']
+    bsteps = {'eof': [('at', 1.0), ('eof',)], 'reset': [('at', 1.0), ('err', 'reset')],
+              'protocol-error': [('at', 1.0), ('raw', F(3, b'x'))],
+              'server-close': [('at', 1.0), ('raw', F(8, refws.close_payload(1000, 'bye'))), ('await_close',), ('eof',)]}[bfault]
+
+    def factory(i):
+        return simnet.ScriptServer([('hs', {})] + (bsteps if i == 1 else []))
+
+    with sched.InstalledShim():
+        w = H.World(factory, split_send=True, horizon=50.0, stop_at=50.0)
+        with simnet.Installed(w):
+            wsa = _env.WebSocket('ws://a.example/')
+            wsb = _env.WebSocket('ws://b.example/')
+            ga = wsa.connect(session_class=simnet.SimSession, ping_rate=0, poll=5.0)
+            gb = wsb.connect(session_class=simnet.SimSession, ping_rate=0, poll=5.0)
+            for g in (ga, gb):
+                for ev in g:
+                    if ev.name == 'poll':
+                        break
+            s = sched.Scheduler(files=sched.WRITE_PATH_FILES)
+            stuck = schedlock.SchedLock(False)
+            stuck.owner = 'never-released'
+            a_state = {'in_write': False}
+
+            def hook(tag):
+                if s.current is not None and s.current.name == 'A':
+                    a_state['in_write'] = True
+                    s.current.blocked_on = stuck       # the peer stopped reading: this write never completes
+                    s.switch_away()
+                else:
+                    s.yield_point(tag)
+            w.yield_hook = hook
+            b_events = []
+
+            def thread_a():
+                if astuck == 'app-send':
+                    wsa.send_text('stalled ' * 20)
+                elif astuck == 'app-ping':
+                    wsa.send_ping(b'stalled')
+                else:
+                    wsa.close(1000, 'stalled')
+
+            def thread_b():
+                try:
+                    for _ in range(8):
+                        ev = next(gb)
+                        b_events.append(ev.name)
+                        if ev.name == 'disconnected':
+                            break
+                except (StopIteration, simnet.Quiesced):
+                    b_events.append('<end>')
+
+            s.spawn('A', thread_a)
+            s.spawn('B', thread_b)
+            s.run(first=0, timeout=20.0)
+            sock_b = w.socks[1] if len(w.socks) > 1 else None
+    acc.count2('oracle', 'two_connection_runs')
+    key = None
+    detail = dict(b_events=b_events, a_reached_write=a_state['in_write'], deadlock=s.deadlock, hung=s.hung,
+                  b_socket_closed=sock_b.closed if sock_b else None)
+    if s.hung:
+        acc.inconclusive.append('two-connection run: scheduler watchdog %r' % (detail,))
+        return
+    if not a_state['in_write']:
+        acc.inconclusive.append('two-connection run: thread A never reached the socket write %r' % (detail,))
+        return
+    if 'disconnected' not in b_events:
+        key = 'transport-failure-stuck-behind-another-connections-stalled-send'
+    elif not sock_b.closed:
+        key = 'socket-left-open:plain'
+    if key:
+        acc.violation(key, 'C09 %s: B fault=%s while A is stuck in %s' % (key, bfault, astuck), case, detail)
+    else:
+        acc.cls('twoconn/%s/%s' % (bfault, astuck))
